@@ -60,12 +60,13 @@ type slot struct {
 
 // Engine interprets concrete ops on the real trees and on the reference models.
 type Engine struct {
-	cfg    *Config
-	slots  []*slot
-	nOps   int
-	Facts  map[string]int
-	mkSub  func(Kind) Subject
-	finReg *finRegistry
+	AuditPhase int // shifts the periodic audits so that they do not stay aligned with scripted prefixes
+	cfg        *Config
+	slots      []*slot
+	nOps       int
+	Facts      map[string]int
+	mkSub      func(Kind) Subject
+	finReg     *finRegistry
 }
 
 func NewEngine(cfg *Config, kinds []Kind) *Engine {
@@ -348,7 +349,10 @@ func (e *Engine) Apply(op Op) error {
 	if e.cfg.Census {
 		e.takeCensus(s, op)
 	}
-	if e.cfg.AuditEvery > 0 && e.nOps%e.cfg.AuditEvery == 0 {
+	if op.Op == "audit" {
+		return e.audit(s, op.T)
+	}
+	if e.cfg.AuditEvery > 0 && (e.nOps+e.AuditPhase)%e.cfg.AuditEvery == 0 {
 		return e.audit(s, op.T)
 	}
 	return nil
@@ -405,6 +409,8 @@ func (e *Engine) apply(s *slot, op Op) error {
 	case "delete":
 		_, present := s.model.Get(op.K)
 		mutating = present
+	case "audit":
+		return nil // the audits themselves run in Apply
 	case "gc":
 		runtime.GC()
 		e.fact("gc")
@@ -463,6 +469,14 @@ func (e *Engine) apply(s *slot, op Op) error {
 		if err = e.doExtreme(s, Op{T: op.T, Op: "min"}); err == nil {
 			err = e.doExtreme(s, Op{T: op.T, Op: "max"})
 		}
+	case "topbottom":
+		err = e.doTopBottomAudit(s, op)
+	case "rangeaudit":
+		err = e.doRangeAudit(s, op)
+	case "prefixaudit":
+		err = e.doPrefixAudit(s, op)
+	case "iteraudit":
+		err = e.doIterAudit(s, op)
 	case "sizecheck":
 		err = e.doSizeCheck(s, op)
 	case "shape":
@@ -983,4 +997,99 @@ func (e *Engine) sortedFactNames() []string {
 	}
 	sort.Strings(ns)
 	return ns
+}
+
+// doTopBottomAudit (C05): TopK/BottomK for n around the current size.
+func (e *Engine) doTopBottomAudit(s *slot, op Op) error {
+	n := uint64(s.model.Len())
+	for _, k := range []uint64{1, n, n + 1} {
+		for _, m := range []string{"topk", "bottomk"} {
+			if err := e.doSeq(s, Op{T: op.T, Op: m, N: k}); err != nil {
+				return err
+			}
+		}
+	}
+	return nil
+}
+
+// doRangeAudit (C03): a handful of ranges whose bounds are derived from the
+// stored keys (whole span, inner span, reversed, single key, absent neighbours).
+func (e *Engine) doRangeAudit(s *slot, op Op) error {
+	if !s.kind.HasRange() {
+		return nil
+	}
+	es := s.model.Sorted()
+	n := len(es)
+	if n == 0 {
+		return e.doSeq(s, Op{T: op.T, Op: "range", K: s.kind.Canon(rawOf(1)), K2: s.kind.Canon(rawOf(2)), Note: "audit"})
+	}
+	pairs := [][2][]byte{{es[0].Raw, es[n-1].Raw}, {es[n/3].Raw, es[2*n/3].Raw}, {es[2*n/3].Raw, es[n/3].Raw}, {es[n/2].Raw, es[n/2].Raw}}
+	pr := derivedProbes(s.kind, []*Entry{es[n/3], es[2*n/3]}, 24)
+	if len(pr) >= 2 {
+		pairs = append(pairs, [2][]byte{pr[0], pr[len(pr)-1]}, [2][]byte{pr[len(pr)/2], es[n-1].Raw}, [2][]byte{es[0].Raw, pr[1]})
+	}
+	for _, p := range pairs {
+		if err := e.doSeq(s, Op{T: op.T, Op: "range", K: clone(p[0]), K2: clone(p[1]), Note: "audit"}); err != nil {
+			return err
+		}
+	}
+	return nil
+}
+
+// doPrefixAudit (C04): prefixes of a few stored keys, cut at several offsets.
+func (e *Engine) doPrefixAudit(s *slot, op Op) error {
+	if !s.kind.HasPrefix() {
+		return nil
+	}
+	es := s.model.Sorted()
+	n := len(es)
+	if n == 0 {
+		return e.doSeq(s, Op{T: op.T, Op: "prefix", K: []byte("a"), Note: "audit"})
+	}
+	for _, i := range []int{0, n / 2, n - 1} {
+		k := es[i].Raw
+		for _, cut := range []int{1, len(k) / 2, 10, 11, len(k) - 1, len(k)} {
+			if cut < 0 || cut > len(k) {
+				continue
+			}
+			p := clone(k[:cut])
+			for len(p) > 0 && s.kind.Family() == "collation" && !validRunes(p) {
+				p = p[:len(p)-1]
+			}
+			if err := e.doSeq(s, Op{T: op.T, Op: "prefix", K: p, Note: "audit"}); err != nil {
+				return err
+			}
+		}
+	}
+	return nil
+}
+
+// doIterAudit (C14): every sequence method abandoned midway and re-iterated twice.
+func (e *Engine) doIterAudit(s *slot, op Op) error {
+	es := s.model.Sorted()
+	n := len(es)
+	for _, m := range []string{"all", "backward", "topk", "bottomk", "prefix", "range"} {
+		o := Op{T: op.T, Op: "iter", M: m, Stop: n / 2, Re: 2, N: uint64(n/2 + 1), Note: "audit"}
+		switch m {
+		case "prefix":
+			if !s.kind.HasPrefix() || n == 0 {
+				continue
+			}
+			k := es[n/2].Raw
+			o.K = clone(k[:len(k)/2])
+			for len(o.K) > 0 && s.kind.Family() == "collation" && !validRunes(o.K) {
+				o.K = o.K[:len(o.K)-1]
+			}
+			o.Stop = 1
+		case "range":
+			if !s.kind.HasRange() || n == 0 {
+				continue
+			}
+			o.K, o.K2 = clone(es[0].Raw), clone(es[n-1].Raw)
+		}
+		if err := e.doIter(s, o); err != nil {
+			return err
+		}
+	}
+	return nil
 }
